@@ -481,6 +481,11 @@ def _initialize_element(
     symbol: str = definition.symbol.strip()
     _validate_element_symbol(symbol)
     Class: Type[Element] = definition.Class
+    if any(Class is default for default in _DEFAULT_ELEMENTS.values()):
+        raise ValueError(
+            f"Expected a user-defined element instead of one of the default elements {Class=}"
+        )
+
     parameters: List[ParameterDefinition] = definition.parameters
     subcircuits: List[SubcircuitDefinition] = (
         definition.subcircuits if isinstance(definition, ContainerDefinition) else []
